@@ -80,22 +80,7 @@ def run(ctx):
 
     # ---------------- R1 definition / this pairing
     ctx.rule("C13.R1", "at every FunctionDef::call site the function definition comes from get_function_def(F) and the `this` argument is that same value F (so a named function sees itself under its own name)", floor=16)
-    per_ctx = {}
-    for fn, n, e, g in sites:
-        label = context_of(g, fn) or "Call"
-        idx = per_ctx.get((fn, label), 0)
-        per_ctx[(fn, label)] = idx + 1
-        key = "%s[%s]#%d" % (H.last(fn), label, idx)
-        d = strip_wrappers(S.norm(n["recv"], e))
-        this = deep_unhoist(S.norm(n["args"][0], e))
-        ok, why = False, ""
-        if d[0] == "fn" and d[1] == "get_function_def" and len(d) >= 3:
-            f_arg = deep_unhoist(d[2])
-            ok = f_arg == this
-            why = "definition of %s, this = %s" % (S.show(f_arg)[:80], S.show(this)[:80])
-        else:
-            ok, why = None, "definition is not a direct get_function_def(..) result: %s" % S.show(d)[:100]
-        ctx.inst("C13.R1", key, ok, why, H.loc(n))
+    this_pairing(ctx, "C13.R1", core, sites)
 
     # ---------------- R2 index passing
     ctx.rule("C13.R2", "element-wise callers (via, where, map, filter, every, some) pass [item, index] exactly when the function's arity can accept 2, else [item]; reduce passes [acc, item, index] when it can accept 3, else [acc, item]; key functions (sort_by, group_by, count_by) and into / scalar via pass one argument", floor=14)
@@ -265,3 +250,42 @@ def run(ctx):
         same = a == b
         ctx.inst("C13.R4", "%s~%s" % (opn.lower(), bin_.lower()), same,
                  "%s passes %s to the callback; %s passes %s on top of the +1 of its own call: a recursion that nests through %s exhausts the call-depth limit about three times sooner than the same recursion through %s" % (opn.lower(), sorted(a), bin_.lower(), sorted(b), bin_.lower(), opn.lower()), None)
+
+
+def call_sites(core):
+    sites = []
+    for fn in (BINOP, BCALL, EVAL):
+        f = core.hir_fn(fn)
+        env = S.Env()
+        for p in f["params"]:
+            for bn in H.pat_binds(p):
+                env.roles[bn] = ("param", bn)
+        for n, e, g in scope.sites(f["body"], lambda n: H.kind(n) == "MethodCall" and n.get("def") == FCALL, env):
+            sites.append((fn, n, e, g))
+    return sites
+
+
+def this_pairing(ctx, rid, core, sites=None):
+    """the `this` handed to FunctionDef::call is the function value itself (shared with C03: under its own name a function sees itself,
+    never the piped value or anything else)"""
+    if sites is None:
+        S.TEMPLATES = None
+        S.INLINE = S.default_inline(core)
+        sites = call_sites(core)
+    per_ctx = {}
+    for fn, n, e, g in sites:
+        label = context_of(g, fn) or "Call"
+        idx = per_ctx.get((fn, label), 0)
+        per_ctx[(fn, label)] = idx + 1
+        key = "%s[%s]#%d" % (H.last(fn), label, idx)
+        d = strip_wrappers(S.norm(n["recv"], e))
+        this = deep_unhoist(S.norm(n["args"][0], e))
+        ok, why = False, ""
+        if d[0] == "fn" and d[1] == "get_function_def" and len(d) >= 3:
+            f_arg = deep_unhoist(d[2])
+            ok = f_arg == this
+            why = "definition of %s, this = %s" % (S.show(f_arg)[:80], S.show(this)[:80])
+        else:
+            ok, why = None, "definition is not a direct get_function_def(..) result: %s" % S.show(d)[:100]
+        ctx.inst(rid, key, ok, why, H.loc(n))
+
